@@ -281,10 +281,10 @@ theorem slowAcc_eq (ds : List Nat) (hd : ∀ c ∈ ds, isD c = true) (a n : Nat)
       · simp
 
 
-/-! ## the exponent loop with its `exp < 10000` cap -/
+/-! ## the exponent loop with its `exp < 10^15` cap -/
 
 def capAcc (e : Int) (ds : List Nat) : Int :=
-  ds.foldl (fun (e : Int) (c : Nat) => if e < 10000 then e * 10 + ((c : Int) - 48) else e) e
+  ds.foldl (fun (e : Int) (c : Nat) => if e < 1000000000000000 then e * 10 + ((c : Int) - 48) else e) e
 
 theorem expLoop_eq (s : List Nat) (e : Int) (i : Nat) :
     expLoop s e i = (capAcc e (takeDigits s), s.dropWhile isD, i + (takeDigits s).length) := by
@@ -303,7 +303,8 @@ theorem le_accDigits (a : Nat) (ds : List Nat) : a ≤ accDigits a ds := by
   omega
 
 /-- below the cap the exponent loop computes the written exponent -/
-theorem capAcc_eq (ds : List Nat) (hd : ∀ c ∈ ds, isD c = true) (a : Nat) (h : accDigits a ds < 100000) :
+theorem capAcc_eq (ds : List Nat) (hd : ∀ c ∈ ds, isD c = true) (a : Nat)
+    (h : accDigits a ds < 10000000000000000) :
     capAcc (a : Int) ds = ((accDigits a ds : Nat) : Int) := by
   induction ds generalizing a with
   | nil => rfl
@@ -312,21 +313,22 @@ theorem capAcc_eq (ds : List Nat) (hd : ∀ c ∈ ds, isD c = true) (a : Nat) (h
     rw [isD_iff] at hc
     rw [accDigits_cons] at h
     have h1 := le_accDigits (a * 10 + (c - 48)) r
-    have ha : (a : Int) < 10000 := by omega
+    have ha : (a : Int) < 1000000000000000 := by omega
     have e1 : (a : Int) * 10 + ((c : Int) - 48) = ((a * 10 + (c - 48) : Nat) : Int) := by omega
     simp only [capAcc, List.foldl_cons, ha, if_true, e1]
     exact ih (fun x hx => hd x (by simp [hx])) _ h
 
-/-- in any case the loop result stays below 100000 (so that `exp * esm` cannot overflow an `int`) -/
-theorem capAcc_bound (ds : List Nat) (hd : ∀ c ∈ ds, isD c = true) (e : Int) (h0 : 0 ≤ e) (h1 : e < 100000) :
-    0 ≤ capAcc e ds ∧ capAcc e ds < 100000 := by
+/-- in any case the loop result stays below 10^16 (so that `exp * esm` cannot overflow an `int64_t`) -/
+theorem capAcc_bound (ds : List Nat) (hd : ∀ c ∈ ds, isD c = true) (e : Int) (h0 : 0 ≤ e)
+    (h1 : e < 10000000000000000) :
+    0 ≤ capAcc e ds ∧ capAcc e ds < 10000000000000000 := by
   induction ds generalizing e with
   | nil => exact ⟨h0, h1⟩
   | cons c r ih =>
     have hc : isD c = true := hd c (by simp)
     rw [isD_iff] at hc
     simp only [capAcc, List.foldl_cons]
-    by_cases h : e < 10000
+    by_cases h : e < 1000000000000000
     · simp only [h, if_true]
       exact ih (fun x hx => hd x (by simp [hx])) _ (by omega) (by omega)
     · simp only [h, if_false]
